@@ -1091,8 +1091,8 @@ class Alias(Family):
         obs, steps, orc = self._impl(c)
         if any(o[0] == 'meta_nested_put' for o in c['ops']):
             return None         # nested in-place edits: judged by the frame oracle alone
-        if any(o[0] in LIST_OPS for o in c['ops']):
-            return None         # edits of the public changes / files lists: judged by the oracles alone
+        if any(o[0] in LIST_OPS for o in c['ops']) or c.get('huge'):
+            return None         # edits of the public changes / files lists, astronomically large indents: judged by the oracles alone
         if '__live__' in json.dumps(c['ops']):
             return None         # live values: judged by the oracles alone (observers change nothing, same bytes twice)
         if has_mixed_keys(c['ops']):
@@ -1306,6 +1306,14 @@ class Attrs(Family):
                 yield dict(kind='perturb-meta', ops=base + base_shift(base) + [['meta_put', 0, ['f', ci, fi], 'who', v0],
                                                                                ['meta_put', 1, ['f', ci, fi], 'who', v1], ['eq', 0, 1],
                                                                                ['to_bytes', 0], ['to_bytes', 1], ['eq', 0, 1]])
+            # integers that CPython hashes alike (congruent modulo sys.hash_info.modulus) and -1 / -2: different option values
+            import sys as _sys
+            M = _sys.hash_info.modulus
+            for a0, a1 in [(0, M), (1, M + 1), (4, 4 + M), (7, 7 + 2 * M)]:
+                for p in ('main', ['c', ci]):
+                    yield dict(kind='perturb', ops=base + base_shift(base) + [['set', 0, p, 'preamble_indent', {'i': a0}],
+                                                                              ['set', 1, p, 'preamble_indent', {'i': a1}],
+                                                                              ['eq', 0, 1], ['eq', 1, 0]], huge=True)
             # values a person would call "the same" and that are nevertheless different content: canonically / compatibly
             # equivalent Unicode spellings, case, white space, newline style, a leading U+FEFF, numerals
             for a0, a1 in NEAR_EQUAL_TEXTS:
